@@ -64,9 +64,23 @@ def build_harness(profile="dev"):
     return path
 
 
+# cases during whose replay the code under test panicked outside every guarded section of the harness (collected by
+# for_each_replay_line in the harness, which goes on with the next case); Report.finish() turns them into violations
+UNGUARDED = []
+
+
 def xv(args, profile="dev", timeout=1800, stdin=None, check=True):
     exe = build_harness(profile)
-    p = subprocess.run([exe] + args, stdout=subprocess.PIPE, stderr=subprocess.PIPE, text=True, timeout=timeout, input=stdin)
+    pf = os.path.join(WORK, f"unguarded-{os.getpid()}.ndjson")
+    if os.path.exists(pf):
+        os.remove(pf)
+    p = subprocess.run([exe] + args, stdout=subprocess.PIPE, stderr=subprocess.PIPE, text=True, timeout=timeout, input=stdin,
+                       env=dict(os.environ, XV_PANIC_FILE=pf))
+    if os.path.exists(pf):
+        for line in open(pf):
+            if line.strip():
+                UNGUARDED.append(dict(json.loads(line), cmd=args[0]))
+        os.remove(pf)
     if check and p.returncode != 0:
         log(p.stderr[-3000:])
         raise ToolError(f"xv {' '.join(args[:2])} exited {p.returncode}")
@@ -222,6 +236,10 @@ class Report:
             self.coverage["samples"].append(s)
 
     def finish(self):
+        for u in UNGUARDED:
+            self.violation("unguarded-panic:" + sha(json.dumps(u.get("case"), sort_keys=True)),
+                           f"[{u.get('cmd')}] the code under test panicked while this case was replayed: {u.get('panic', '')[:200]}", u)
+        del UNGUARDED[:]
         known_hit = {}
         fresh = []
         for v in self.violations:
